@@ -147,8 +147,12 @@ func (r *checkRun) tryReplay(o *Obligation) (map[string]any, bool) {
 	}
 	// ask for the values of the parameters and of the returned values
 	var names []string
-	for _, p := range fn.Params {
-		names = append(names, "p_"+sanitize(p.Name()))
+	for pi, p := range fn.Params {
+		if p.Name() == "_" {
+			names = append(names, fmt.Sprintf("p_blank%d", pi))
+		} else {
+			names = append(names, "p_"+sanitize(p.Name()))
+		}
 	}
 	names = append(names, o.ResultTerms...)
 	q := "(set-option :produce-models true)\n" + o.Query() + "(check-sat)\n(get-value (" + strings.Join(names, " ") + "))\n"
